@@ -426,7 +426,7 @@ def processBatchResponse (st : Core) (rps : List Response) (lo hi : Nat) : Core 
 
 /-- `Notification<SubscriptionPayload{,Error}>`: `jsonrpc`, `method`, `params = {subscription, <key>}` -/
 def decodeSubMsg (key : Text) (raw : Text) : Option (SubId × Text) :=
-  match structFields [kJsonrpc, kMethod, kParams] false raw with
+  match structFields notifKnown notifDeny raw with
   | some [some j, some m, some p] =>
     if !isTwoPointZero j then none else
     match decodeString m with
